@@ -117,7 +117,12 @@ class Handshake:
         extensions: List[Extension] = [PerMessageDeflate()]
         accepts = None
         if self.extensions is not None:
-            accepts = server_extensions_handshake(self.extensions, extensions)
+            try:
+                accepts = server_extensions_handshake(self.extensions, extensions)
+            except ValueError:
+                # An offer with an invalid parameter is declined (RFC 7692
+                # section 5), it is not an error of the application's.
+                extensions = [PerMessageDeflate()]
 
         if accepts:
             headers.append((b"sec-websocket-extensions", accepts))
